@@ -2,7 +2,7 @@
 //! records an event, so a double drop or a drop of garbage is observed, not UB.
 use crate::sched;
 
-pub const GARBAGE: u64 = 0xFFFF_FFFF;
+pub const GARBAGE: u64 = 2_000_000_000;
 
 pub trait Payload: Send + 'static {
     const NAME: &'static str;
@@ -12,6 +12,14 @@ pub trait Payload: Send + 'static {
     fn make(id: u32) -> Self;
     /// id, or GARBAGE if the bits are not a value `make` produces
     fn id(&self) -> u64;
+    /// the id `make(id)` reports, computed without creating a value
+    fn id_of(id: u32) -> u64 {
+        if Self::TAGGED {
+            id as u64
+        } else {
+            0
+        }
+    }
 }
 
 fn rec_drop(id: u64) {
@@ -58,6 +66,9 @@ impl Payload for H4 {
     const DROPS: bool = true;
     fn make(id: u32) -> Self {
         H4(((mix(id) as u32 & 0xFFFF) << 16) | (id & 0xFFFF))
+    }
+    fn id_of(id: u32) -> u64 {
+        (id & 0xFFFF) as u64
     }
     fn id(&self) -> u64 {
         let id = self.0 & 0xFFFF;
@@ -153,6 +164,9 @@ impl Payload for U8 {
     fn make(id: u32) -> Self {
         U8(id as u8)
     }
+    fn id_of(id: u32) -> u64 {
+        (id & 0xFF) as u64
+    }
     fn id(&self) -> u64 {
         self.0 as u64
     }
@@ -166,6 +180,9 @@ impl Payload for U16 {
     const DROPS: bool = false;
     fn make(id: u32) -> Self {
         U16(id as u16)
+    }
+    fn id_of(id: u32) -> u64 {
+        (id & 0xFFFF) as u64
     }
     fn id(&self) -> u64 {
         self.0 as u64
